@@ -31,7 +31,10 @@ def knownClasses : List (String × String × String × String) := [
   ("token", "import", "invalid_token_max_supply", "F-gen-9"),
   ("token", "import", "does_not_exist", "F-gen-10"),
   ("record", "fixpoint", "recs=", "F-gen-3"),
-  ("record", "queries_same", "recs=", "F-gen-3")]
+  ("record", "queries_same", "recs=", "F-gen-3"),
+  -- same finding, first visible difference = the intra-tx counter (not exported; ids are re-derived from 0,1,2,…)
+  ("record", "fixpoint", "ctr=", "F-gen-3"),
+  ("record", "queries_same", "ctr=", "F-gen-3")]
 
 def classify (module clause obs : String) : String :=
   match knownClasses.find? (fun (m, c, sub, _) => m = module && c = clause && (sub = "" || (obs.splitOn sub).length > 1)) with
